@@ -102,7 +102,7 @@ func (p *tlsConfigPool) LoadTLSConfig(config TLSConfig) (*tls.Config, error) {
 	case config.GetTrustedCertificateAuthorityFile() != "":
 		var err error
 		ca, err = p.caWatcher.WatchFile(
-			NewFileReader(config.GetTrustedCertificateAuthorityFile()),
+			caFileReader{FileReader: NewFileReader(config.GetTrustedCertificateAuthorityFile()), id: id},
 			config.GetTrustedCertificateAuthorityRefreshInterval().AsDuration(),
 			func(data []byte) { p.updateCA(id, data) },
 		)
@@ -138,6 +138,17 @@ func (p *tlsConfigPool) LoadTLSConfig(config TLSConfig) (*tls.Config, error) {
 	p.mu.Unlock()
 	return tlsConfig, nil
 }
+
+// caFileReader reads the CA file of one pooled TLS config. The file watcher keeps a single watcher per
+// reader ID and stops the previous one when the ID is watched again: the ID is therefore that of the TLS
+// config and not the file path, so that TLS configs that share a CA file are all kept up to date.
+type caFileReader struct {
+	*FileReader
+	id string
+}
+
+// ID returns the ID of the TLS config the file is watched for.
+func (r caFileReader) ID() string { return r.id }
 
 func (p *tlsConfigPool) updateCA(id string, caPem []byte) {
 	log := p.log.With("id", id)
